@@ -81,6 +81,7 @@ structure St where
   pending : List (Text × Obj) := []   -- backtrack callbacks
   docs    : List Loc := []            -- visitedDocuments
   foreign : Bool := false             -- some reference was evaluated in a context that is not its home
+  tclash  : Bool := false             -- some callback fired for a reference whose own one-step target differs from the visitor's (#29)
   done    : List Obj := []            -- objects whose resolver call has returned nil (instrumentation only)
   nback   : Nat := 0                  -- callbacks ever registered (instrumentation only)
   nnil    : Nat := 0                  -- `unvisitRef` calls with a nil value (instrumentation only)
@@ -90,9 +91,17 @@ structure St where
 
 def St.get (s : St) (o : Obj) : Option Obj := (s.value.find? (·.1 = o)).map (·.2)
 
+/-- the two event flags of a run (kept in errors for classification only) -/
+structure Flags where
+  foreign : Bool
+  tclash  : Bool
+  deriving Repr
+
+def St.flags (s : St) : Flags := ⟨s.foreign, s.tclash⟩
+
 inductive Res
   | ok (s : St)
-  | err (foreign : Bool)     -- load error (with the `foreign` flag at that moment, for classification only)
+  | err (fl : Flags)         -- load error (with the event flags at that moment, for classification only)
   | outOfFuel
   deriving Repr
 
@@ -118,9 +127,15 @@ def valueOf (w : World) (tgt : Obj) (s : St) : Option Obj :=
 
 def kindOf (w : World) (o : Obj) : Option Kind := (w.node o).map (·.kind)
 
+/-- the one-step target of a reference object evaluated where it is written -/
+def homeTarget (w : World) (t : Text) (m : Obj) : Option (Loc × Obj) :=
+  (w.node m).bind (fun nm => w.target nm.home t nm.kind)
+
 /-- `unvisitRef(ref, value)`: the callbacks registered under the text run when the value is non-nil; a
-    callback registered by a resolver of another kind returns without doing anything -/
-def unvisit (w : World) (k : Kind) (t : Text) (v : Option Obj) (s : St) : Res :=
+    callback registered by a resolver of another kind returns without doing anything. `tg` is the visitor's own
+    one-step target: `tclash` records that a callback fired for a reference which, read where it is written, goes
+    somewhere else (the table is keyed by the text alone, #29). -/
+def unvisit (w : World) (k : Kind) (t : Text) (tg : Option (Loc × Obj)) (v : Option Obj) (s : St) : Res :=
   match v with
   | none => .ok { s with inprog := s.inprog.erase t, pending := s.pending.filter (·.1 ≠ t), nnil := s.nnil + 1 }
   | some v =>
@@ -129,6 +144,7 @@ def unvisit (w : World) (k : Kind) (t : Text) (v : Option Obj) (s : St) : Res :=
     .ok { s with value := s.value ++ fit.map (fun p => (p.2, v)),
                  inprog := s.inprog.erase t,
                  pending := s.pending.filter (·.1 ≠ t),
+                 tclash := s.tclash || fit.any (fun p => homeTarget w t p.2 != tg),
                  nskip := s.nskip + (mine.length - fit.length) }
 
 /-- `loadFromDataWithPathInternal`: a document not yet in `visitedDocuments` is registered and walked -/
@@ -141,14 +157,14 @@ def loadDoc (w : World) (rs : Loc → Nat → St → Res) (d : Option Loc) (s : 
 
 /-- `component.Value = value`, the second walk of the value's children (`rw`; `rs` runs in the context the
     routine continues with), then the deferred `unvisitRef` -/
-def finish (w : World) (rs : Nat → St → Res) (k : Kind) (t : Text) (o : Obj) (rw : Bool) (v : Option Obj) (s : St) : Res :=
+def finish (w : World) (rs : Nat → St → Res) (k : Kind) (t : Text) (tg : Option (Loc × Obj)) (o : Obj) (rw : Bool) (v : Option Obj) (s : St) : Res :=
   match v with
-  | none => unvisit w k t none s
+  | none => unvisit w k t tg none s
   | some v =>
     let s1 := { s with value := s.value ++ [(o, v)] }
     let kids := if rw then ((w.node v).map (·.kids)).getD [] else []
     match foldRes rs kids s1 with
-    | .ok s2 => unvisit w k t (some v) s2
+    | .ok s2 => unvisit w k t tg (some v) s2
     | e => e
 
 /-- the resolver call on `o` returned nil -/
@@ -160,7 +176,7 @@ def resolve (w : World) : Nat → Loc → Obj → St → Res
   | 0, _, _, _ => .outOfFuel
   | fuel + 1, cx, o, s =>
     match w.node o with
-    | none => .err s.foreign
+    | none => .err s.flags
     | some n =>
       match n.ref with
       | none => markDone o (foldRes (fun k s => resolve w fuel cx k s) n.kids s)
@@ -174,12 +190,12 @@ def resolve (w : World) : Nat → Loc → Obj → St → Res
           | .ok s2 =>
             if w.emptyTarget cx t n.kind then markDone o (.ok { s2 with nempty := s2.nempty + 1 }) else
             match w.target cx t n.kind with
-            | none => .err s2.foreign                                     -- dangling
+            | none => .err s2.flags                                     -- dangling
             | some (cx', tgt) =>
               match w.node tgt with
-              | none => .err s2.foreign
+              | none => .err s2.flags
               | some tn =>
-                if tn.kind ≠ n.kind then .err s2.foreign                -- wrong kind ("bad data in …")
+                if tn.kind ≠ n.kind then .err s2.flags                -- wrong kind ("bad data in …")
                 else
                   match resolve w fuel cx' tgt s2 with
                   | .ok s3 =>
@@ -187,7 +203,7 @@ def resolve (w : World) : Nat → Loc → Obj → St → Res
                     -- in the target's context; the copy is resolved only `if resolved.Ref != ""`
                     let wcx := if n.kind = Kind.pathItem then cx' else cx
                     let rw := if n.kind = Kind.pathItem then tn.ref.isSome else w.rewalk cx t n.kind
-                    markDone o (finish w (fun k s => resolve w fuel wcx k s) n.kind t o rw (valueOf w tgt s3) s3)
+                    markDone o (finish w (fun k s => resolve w fuel wcx k s) n.kind t (some (cx', tgt)) o rw (valueOf w tgt s3) s3)
                   | e => e
           | e => e
 
@@ -215,7 +231,8 @@ def designates (w : World) : Nat → Obj → Option Obj
           | none => none
           | some tn => if tn.kind = n.kind then designates w fuel tgt else none
 
-/-- #29: within one load a reference text designates the same target from every home it is written in -/
+/-- #29, the static condition: within one load a reference text designates the same target from every home it is
+    written in. (The theorems use the weaker per-run flag `tclash`; a world with this property never raises it.) -/
 def TextIsGlobal (w : World) : Prop :=
   ∀ a b na nb t, w.node a = some na → w.node b = some nb → na.ref = some t → nb.ref = some t →
     na.kind = nb.kind → w.target na.home t na.kind = w.target nb.home t nb.kind
